@@ -3,7 +3,8 @@
 //! self-wake. A monitor (the calling thread) detects the state in which every live side is parked with an
 //! unwoken waker: since only channel operations of the other side can wake it, that state is permanent
 //! (lost wake-up). All verdicts are schedule independent: a reported deadlock is a real one.
-use crate::chan::{reset_budget, CountWaker};
+use crate::chan::{pattern, reset_budget, CountWaker};
+use std::io::IoSlice;
 use proptest::prelude::*;
 use serde::{Deserialize, Serialize};
 use std::num::NonZeroUsize;
@@ -20,54 +21,82 @@ pub enum Finish {
     DropWriter,
     ShutdownThenDrop,
     /// the reader is dropped after having received this many bytes; the writer must then fail
-    DropReaderAfter(u16),
+    DropReaderAfter(u32),
 }
 
 #[derive(Clone, Debug, Serialize, Deserialize)]
 pub struct ThreadCase {
-    cap: u8,
+    cap: u32,
     /// bytes the writer tries to send
-    total: u16,
+    total: u32,
     /// write request sizes / read buffer sizes, used cyclically
-    wsizes: Vec<u8>,
-    rsizes: Vec<u8>,
+    wsizes: Vec<u32>,
+    rsizes: Vec<u32>,
+    /// 0: poll_write; 1..=4: poll_write_vectored with the request cut into that many slices (4: one of them empty)
+    vectored: u8,
     /// coop budgets of the two tasks (>= 2: a budget of 1 can never make progress)
     wbudget: u8,
     rbudget: u8,
     finish: Finish,
 }
 
+fn build(cap: u32, total: u32, wsizes: Vec<u32>, rsizes: Vec<u32>, wbudget: u8, rbudget: u8, vectored: u8, fin: (u8, u32)) -> ThreadCase {
+    let finish = match fin.0 {
+        0..=2 => Finish::DropWriter,
+        3..=4 => Finish::ShutdownThenDrop,
+        _ => Finish::DropReaderAfter(fin.1 % (total + 1)),
+    };
+    ThreadCase {
+        cap,
+        total,
+        wsizes,
+        rsizes,
+        wbudget,
+        rbudget,
+        vectored,
+        finish,
+    }
+}
+
 pub fn strategy() -> impl Strategy<Value = ThreadCase> {
-    let cap = prop_oneof![4 => 1u8..=4, 2 => 5u8..=16, 1 => 17u8..=64];
-    (cap, 1u16..=6000).prop_flat_map(|(cap, total)| {
-        let size = prop_oneof![3 => Just(1u8), 2 => Just(cap), 1 => Just(cap + 1), 3 => 1..=cap + 1];
-        let budget = prop_oneof![2 => Just(64u8), 3 => 2u8..=6];
-        let finish = prop_oneof![
-            3 => Just(Finish::DropWriter),
-            2 => Just(Finish::ShutdownThenDrop),
-            1 => (0..=total).prop_map(Finish::DropReaderAfter),
-        ];
+    let budget = || prop_oneof![2 => Just(64u8), 3 => 2u8..=6];
+    let vectored = || prop_oneof![3 => Just(0u8), 2 => 1u8..=4];
+    let small = (prop_oneof![4 => 1u32..=4, 2 => 5u32..=16, 1 => 17u32..=64], 1u32..=6000).prop_flat_map(move |(cap, total)| {
+        let size = prop_oneof![3 => Just(1u32), 2 => Just(cap), 1 => Just(cap + 1), 3 => 1..=cap + 1];
         (
             proptest::collection::vec(size.clone(), 1..=6),
             proptest::collection::vec(size, 1..=6),
-            budget.clone(),
-            budget,
-            finish,
+            budget(),
+            budget(),
+            vectored(),
+            (0u8..6, any::<u32>()),
         )
-            .prop_map(move |(wsizes, rsizes, wbudget, rbudget, finish)| ThreadCase {
-                cap,
-                total,
-                wsizes,
-                rsizes,
-                wbudget,
-                rbudget,
-                finish,
-            })
-    })
-}
-
-fn pat(i: usize) -> u8 {
-    (i % 251) as u8
+            .prop_map(move |(w, r, wb, rb, v, fin)| build(cap, total, w, r, wb, rb, v, fin))
+    });
+    // Large capacities, single operations around 4 KiB / 8 KiB / 64 KiB, small budgets.
+    let large = (
+        proptest::sample::select(vec![4096u32, 8191, 8192, 8193, 16384, 65535, 65536, 65537]),
+        1u32..=700_000,
+    )
+        .prop_flat_map(move |(cap, total)| {
+            let size = prop_oneof![
+                3 => Just(cap),
+                1 => Just(cap + 1),
+                1 => Just(cap - 1),
+                3 => proptest::sample::select(vec![4095u32, 4096, 4097, 8191, 8192, 8193, 16384, 65536]).prop_map(move |x| x.min(cap + 1)),
+                1 => 1..=cap + 1,
+            ];
+            (
+                proptest::collection::vec(size.clone(), 1..=4),
+                proptest::collection::vec(size, 1..=4),
+                2u8..=5,
+                2u8..=5,
+                vectored(),
+                (0u8..6, any::<u32>()),
+            )
+                .prop_map(move |(w, r, wb, rb, v, fin)| build(cap, total, w, r, wb, rb, v, fin))
+        });
+    prop_oneof![3 => small, 1 => large]
 }
 
 struct SideState {
@@ -115,6 +144,19 @@ impl SideState {
     }
 }
 
+/// Marks the side as finished when its thread ends, also by a panic in the code under test (then the
+/// other side is released as well), so that a panic can never hang the case.
+struct DoneGuard<'a>(&'a SideState, &'a AtomicBool);
+
+impl Drop for DoneGuard<'_> {
+    fn drop(&mut self) {
+        if std::thread::panicking() {
+            self.1.store(true, SeqCst);
+        }
+        self.0.done.store(true, SeqCst);
+    }
+}
+
 struct Shared {
     w: SideState,
     r: SideState,
@@ -135,7 +177,7 @@ impl Shared {
 
 pub fn check(case: &ThreadCase) -> Verdict {
     let mut v = Verdict::new();
-    if case.cap == 0 || case.cap > 64 || case.wsizes.is_empty() || case.rsizes.is_empty() || case.wbudget < 2 || case.rbudget < 2 {
+    if case.cap == 0 || case.cap as usize > crate::chan::MAX_CAP || case.vectored > 4 || case.wsizes.is_empty() || case.rsizes.is_empty() || case.wbudget < 2 || case.rbudget < 2 {
         return v;
     }
     let cap = case.cap as usize;
@@ -154,10 +196,10 @@ pub fn check(case: &ThreadCase) -> Verdict {
     let (sent, received, saw_eof, write_failed) = std::thread::scope(|scope| {
         let sh = &sh;
         let wh = scope.spawn(move || {
+            let _guard = DoneGuard(&sh.w, &sh.abort);
             let mut writer = writer;
             let waker = Waker::from(sh.w.waker.clone());
             let mut cx = Context::from_waker(&waker);
-            let mut buf = [0u8; 80];
             let mut sent = 0usize;
             let mut i = 0usize;
             let mut failed = false;
@@ -165,11 +207,26 @@ pub fn check(case: &ThreadCase) -> Verdict {
             reset_budget(case.wbudget);
             'outer: while sent < total {
                 let k = (case.wsizes[i % case.wsizes.len()] as usize).clamp(1, cap + 1).min(total - sent);
-                for (j, b) in buf[..k].iter_mut().enumerate() {
-                    *b = pat(sent + j);
-                }
+                let data = pattern(sent, k);
                 let c0 = sh.w.waker.count();
-                match Pin::new(&mut writer).poll_write(&mut cx, &buf[..k]) {
+                let res = if case.vectored == 0 {
+                    Pin::new(&mut writer).poll_write(&mut cx, data)
+                } else {
+                    // cut the request into `vectored` consecutive slices (the 4-slice form has an empty one)
+                    let parts = case.vectored as usize;
+                    let bounds: [usize; 5] = if parts == 4 {
+                        [0, k / 3, k / 3, 2 * k / 3, k]
+                    } else {
+                        [0, k / parts, if parts == 2 { k } else { 2 * k / parts }, k, k]
+                    };
+                    let mut slices = [IoSlice::new(&[]); 4];
+                    for j in 0..parts {
+                        let end = if j + 1 == parts { k } else { bounds[j + 1] };
+                        slices[j] = IoSlice::new(&data[bounds[j]..end]);
+                    }
+                    Pin::new(&mut writer).poll_write_vectored(&mut cx, &slices[..parts])
+                };
+                match res {
                     Poll::Ready(Ok(m)) => {
                         if m == 0 || m > k {
                             sh.fail("write-count:threads", format!("poll_write of {} bytes returned Ok({})", k, m));
@@ -217,16 +274,17 @@ pub fn check(case: &ThreadCase) -> Verdict {
                 }
             }
             drop(writer);
-            sh.w.done.store(true, SeqCst);
             (sent, failed)
         });
         let rh = scope.spawn(move || {
+            let _guard = DoneGuard(&sh.r, &sh.abort);
             let mut reader = reader;
             let waker = Waker::from(sh.r.waker.clone());
             let mut cx = Context::from_waker(&waker);
             let mut received = 0usize;
             let mut i = 0usize;
             let mut eof = false;
+            let mut room = vec![0u8; cap + 1];
             let stop_at = match case.finish {
                 Finish::DropReaderAfter(n) => Some(n as usize),
                 _ => None,
@@ -240,8 +298,7 @@ pub fn check(case: &ThreadCase) -> Verdict {
                     }
                 }
                 let n = (case.rsizes[i % case.rsizes.len()] as usize).clamp(1, cap + 1);
-                let mut arr = [0u8; 80];
-                let mut rb = ReadBuf::new(&mut arr[..n]);
+                let mut rb = ReadBuf::new(&mut room[..n]);
                 sh.read_upper.store(received + n, SeqCst);
                 let c0 = sh.r.waker.count();
                 match Pin::new(&mut reader).poll_read(&mut cx, &mut rb) {
@@ -251,10 +308,12 @@ pub fn check(case: &ThreadCase) -> Verdict {
                             eof = true;
                             break;
                         }
-                        if let Some(j) = data.iter().enumerate().position(|(j, b)| *b != pat(received + j)) {
+                        let want = pattern(received, data.len());
+                        if data != want {
+                            let j = data.iter().zip(want).position(|(a, b)| a != b).unwrap_or(0);
                             sh.fail(
                                 "read-not-prefix-of-written:threads",
-                                format!("byte {} of the stream is {} but {} was written", received + j, data[j], pat(received + j)),
+                                format!("byte {} of the stream is {} but {} was written", received + j, data[j], want[j]),
                             );
                             break;
                         }
@@ -266,6 +325,13 @@ pub fn check(case: &ThreadCase) -> Verdict {
                         break;
                     }
                     Poll::Pending => {
+                        if !rb.filled().is_empty() {
+                            sh.fail(
+                                "pending-read-filled-buffer:threads",
+                                format!("poll_read returned Pending but put {} bytes into the buffer", rb.filled().len()),
+                            );
+                            break;
+                        }
                         if sh.r.waker.count() == c0 && !sh.r.wait(c0, &sh.abort) {
                             break;
                         }
@@ -274,7 +340,6 @@ pub fn check(case: &ThreadCase) -> Verdict {
                 }
             }
             drop(reader);
-            sh.r.done.store(true, SeqCst);
             (received, eof)
         });
         // Monitor. A wait episode is identified by the (strictly increasing, odd) state word; if both
@@ -306,8 +371,16 @@ pub fn check(case: &ThreadCase) -> Verdict {
             }
             std::thread::yield_now();
         }
-        let (sent, failed) = wh.join().expect("writer thread panicked");
-        let (received, eof) = rh.join().expect("reader thread panicked");
+        let w = wh.join();
+        let r = rh.join();
+        if w.is_err() {
+            sh.fail("panic:threads/writer", "the writer thread panicked inside the channel (message on stderr)".to_string());
+        }
+        if r.is_err() {
+            sh.fail("panic:threads/reader", "the reader thread panicked inside the channel (message on stderr)".to_string());
+        }
+        let (sent, failed) = w.unwrap_or((0, false));
+        let (received, eof) = r.unwrap_or((0, false));
         (sent, received, eof, failed)
     });
     for (s, d) in sh.fails.lock().unwrap().drain(..) {
@@ -349,6 +422,8 @@ pub fn check(case: &ThreadCase) -> Verdict {
     v.class_if(write_failed, "write-failed-after-close");
     v.class_if(saw_eof, "eof-seen");
     v.class_if(case.wbudget < 64 || case.rbudget < 64, "small-coop-budget");
+    v.class_if(case.vectored > 0, "vectored-write");
+    v.class_if(case.cap >= 4096, "capacity-4096+");
     if wparks > 0 && rparks > 0 {
         v.nontrivial();
     }
